@@ -99,6 +99,30 @@ class FakeRandom:
         raise AssertionError
 
 
+def _canon(x):
+    return "-".join(str(y) for y in x) if isinstance(x, (list, tuple)) else str(x)
+
+
+def quote_tag(template):
+    """what the fabulist stand-ins echo for get_quote(template)"""
+    return "[Q:" + ("|".join(template) if isinstance(template, (list, tuple)) else template) + "]"
+
+
+LOREM_KEYS = ("sentence_count", "dialect", "entropy", "keep_first", "words_per_sentence")
+LOREM_DEFAULTS = dict(sentence_count=(2, 6), dialect="ipsum", entropy=2, keep_first=False, words_per_sentence=(3, 15))
+
+
+def lorem_tag(kw):
+    """what the fabulist stand-ins echo for get_lorem_paragraph(**kw)"""
+    return "[L:" + "|".join(_canon(kw.get(k, "?")) for k in LOREM_KEYS) + ("" if set(kw) <= set(LOREM_KEYS) else "|+") + "]"
+
+
+def declared_tag(j):
+    if j["R"] == "Text":
+        return quote_tag(j["tmpl"])
+    return lorem_tag(dict(LOREM_DEFAULTS, **(j.get("kw") or {})))
+
+
 class FakeFab:
     def __init__(self, st: Stream):
         self._st = st
@@ -107,10 +131,10 @@ class FakeFab:
         return True
 
     def get_quote(self, template):
-        return self._st.next("text")[2]
+        return quote_tag(template) + self._st.next("text")[2]
 
     def get_lorem_paragraph(self, **kw):
-        return self._st.next("text")[2]
+        return lorem_tag(kw) + self._st.next("text")[2]
 
 
 class RecRandom:
@@ -154,13 +178,13 @@ class RecFab:
         t = self._real.get_quote(template)
         self._st.draws.append((0, 1, t))
         self._st.next("text")
-        return t
+        return quote_tag(template) + t
 
     def get_lorem_paragraph(self, **kw):
         t = self._real.get_lorem_paragraph(**kw)
         self._st.draws.append((0, 1, t))
         self._st.next("text")
-        return t
+        return lorem_tag(kw) + t
 
 
 class patched:
@@ -234,9 +258,10 @@ def py_value(j):
     if k == "Sample":
         return TG.SampleRandomizer([py_value(v) for v in j["vals"]], counts=j["counts"], probability=p)
     if k == "Text":
-        return TG.TextRandomizer(j["tmpl"], probability=p)
+        return TG.TextRandomizer(tuple(j["tmpl"]) if isinstance(j["tmpl"], list) else j["tmpl"], probability=p)
     if k == "BlindText":
-        return TG.BlindTextRandomizer(probability=p)
+        kw = {a: (tuple(b) if isinstance(b, list) else b) for a, b in (j.get("kw") or {}).items()}
+        return TG.BlindTextRandomizer(probability=p, **kw)
     raise ValueError(j)
 
 
@@ -289,7 +314,10 @@ def reconfigure(obj, j):
         obj.sample_list = [py_value(v) for v in j["vals"]]
         obj.counts = j["counts"]
     elif k == "Text":
-        obj.template = j["tmpl"]
+        obj.template = tuple(j["tmpl"]) if isinstance(j["tmpl"], list) else j["tmpl"]
+    elif k == "BlindText":
+        for a, b in dict(LOREM_DEFAULTS, **(j.get("kw") or {})).items():
+            setattr(obj, a, tuple(b) if isinstance(b, list) else b)
 
 
 class Live:
@@ -451,7 +479,7 @@ def coq_rnd(j):
         cnt = "None" if j["counts"] is None else "(Some " + H.coq_list(H.z(c) for c in j["counts"]) + ")"
         return f"(RSample {H.coq_list(coq_value(v) for v in j['vals'])} {cnt} {p})"
     if k in ("Text", "BlindText"):
-        return f"(RText {p})"
+        return f"(RText {coq_tmpl(declared_tag(j))} {p})"
     raise ValueError(j)
 
 
@@ -571,8 +599,8 @@ def rnd_allows(j, v, i, path):
     if k == "Sample":
         cnts = j["counts"] or [1] * len(j["vals"])
         return any(x is not None and c > 0 and same(v, plain(x, i, path)) for x, c in zip(j["vals"], cnts))
-    if k in ("Text", "BlindText"):
-        return type(v) is str
+    if k in ("Text", "BlindText"):      # fabulist was called with the declared arguments; its words are an oracle
+        return type(v) is str and v.startswith(expand_str(declared_tag(j), i, path))
     return False
 
 
@@ -1069,8 +1097,19 @@ def gen_rnd(rng):
                 counts[rng.randrange(n)] = 2
         return {"R": k, "vals": vals, "counts": counts, "p": p}
     if k == "Text":
-        return {"R": k, "tmpl": "$(Noun) {idx}", "p": p}
-    return {"R": k, "p": p}
+        return {"R": k, "tmpl": rng.choice(["$(Noun) {idx}", "{idx}: Provide $(Noun:plural)", "$(Verb:ing) $(noun)", ["$(Noun)", "a $(adj) $(noun) {hier_idx}"]]), "p": p}
+    kw = {}
+    if rng.random() < 0.6:
+        kw["sentence_count"] = rng.choice([1, 2, [1, 3]])
+    if rng.random() < 0.4:
+        kw["dialect"] = rng.choice(["ipsum", "pulp", "trappatoni"])
+    if rng.random() < 0.3:
+        kw["entropy"] = rng.choice([0, 1, 3])
+    if rng.random() < 0.3:
+        kw["keep_first"] = True
+    if rng.random() < 0.4:
+        kw["words_per_sentence"] = rng.choice([4, [2, 5]])
+    return {"R": k, "kw": kw, "p": p}
 
 
 def fab_missing():
